@@ -235,6 +235,8 @@ impl<H: Hal, T: Transport> VirtIOConsole<H, T> {
     fn wait_for_receive(&mut self) -> Result {
         self.poll_retrieve()?;
         while self.cursor == self.pending_len {
+            #[cfg(virtio_drivers_verif)]
+            crate::verif::spin(crate::verif::SPIN_CONSOLE_WAIT_RECEIVE);
             self.finish_receive()?;
         }
         Ok(())
